@@ -48,6 +48,7 @@ def setup(rep, tier):
     rep.minimum('R09.4', 4)
     rep.minimum('R09.5', 3)
     rep.minimum('R09.6', 1)
+    rep.minimum('R09.7', 3)
 
 
 def T_minmax(e):
@@ -461,6 +462,87 @@ def r09_5(rep, prog):
                                             '%d guard(s) `!intra_ener && loss_duration != 0`' % len(gb), **({} if ok else {'key': 'safe-prediction'}))
 
 
+def r09_7(rep, prog):
+    """the three places that decide whether an LBRR frame is conditionally coded agree: the encoder
+    (silk_Encode), the decoder's LBRR-skip loop and the decoder's FEC path all use
+    `frame index > 0 and LBRR flag of the SAME channel for the PREVIOUS frame` - decision tables over
+    (channel, frame index, LBRR flags of both channels)."""
+    import itertools
+    sites = []
+    for fname in ('silk_Encode', 'silk_Decode'):
+        f = prog.fn(fname)
+        cf = cfgm.CFG(f)
+        for b, i, n in cf.find(lambda n: n[0] == 'assign' and sx.kind(n[1]) == 'local' and n[1][1] == 'condCoding'):
+            rhs = sx.strip(n[2])
+            reads_flags = any(sx.kind(x) == 'field' and x[3] == 'LBRR_flags' for x in sx.walk(rhs))
+            guarded = any(any(sx.kind(x) == 'field' and x[3] == 'LBRR_flags' for x in sx.walk(cf.cond(p_))) for p_ in cf.pred[b] if cf.cond(p_) is not None)
+            if sx.int_val(rhs) == 2 and guarded:
+                sites.append((f, cf, b, n, 'branch'))
+            elif reads_flags:
+                sites.append((f, cf, b, n, 'expr'))
+    if len(sites) != 3:
+        rep.unresolved('R09.7', 'expected 3 LBRR conditional-coding decisions (encoder, decoder skip loop, decoder FEC path), found %d' % len(sites))
+        return
+    for f, cf, b, n, kind_ in sites:
+        loc = {l['name']: ('local', l['id']) for l in f.locals.values()}
+        # the loop / frame index variable used by this site
+        idxvar = None
+        for x in sx.walk(n[2] if kind_ == 'expr' else [c for p_ in cf.pred[b] for c in [cf.cond(p_)] if c is not None][0]):
+            if sx.kind(x) == 'idx' and sx.kind(sx.strip(x[1])) == 'field' and sx.strip(x[1])[3] == 'LBRR_flags':
+                for y in sx.walk(x[2]):
+                    if sx.kind(y) == 'local':
+                        idxvar = y[1]
+        bad = None
+        ncase = 0
+        # the decoder's skip loop runs in normal decoding, its FEC path with lostFlag == FLAG_DECODE_LBRR
+        lost_val = 2
+        if f.name == 'silk_Decode' and kind_ == 'branch':
+            lost_val = 0
+        for ch, idx in itertools.product((0, 1), (0, 1, 2)):
+            for flags in itertools.product((0, 1), repeat=6):
+                fl = (flags[:3], flags[3:])
+
+                def res(e, ch=ch, idx=idx, fl=fl):
+                    e = sx.strip(e)
+                    if sx.kind(e) == 'local':
+                        if e[1] == 'n':
+                            return ch
+                        if e[1] == idxvar:
+                            return idx
+                    if sx.kind(e) == 'param' and e[2] == 'lostFlag':
+                        return lost_val
+                    if sx.kind(e) == 'idx' and sx.kind(sx.strip(e[1])) == 'field' and sx.strip(e[1])[3] == 'LBRR_flags':
+                        base = sx.strip(sx.strip(e[1])[1])
+                        while sx.kind(base) == 'field':
+                            base = sx.strip(base[1])
+                        c_ = decide.ev3(base[2], {}, res) if sx.kind(base) == 'idx' else None
+                        k_ = decide.ev3(e[2], {}, res)
+                        if c_ in (0, 1) and k_ is not None and 0 <= k_ <= 2:
+                            return fl[c_][k_]
+                        return None
+                    return None
+                want = 1 if (idx > 0 and fl[ch][idx - 1]) else 0
+                if kind_ == 'branch' and not fl[ch][idx]:
+                    continue          # the site is only evaluated for frames that carry LBRR data
+                if kind_ == 'branch':
+                    got = 0 if _enabled_with(cf, b, res) is False else 1
+                else:
+                    if _enabled_with(cf, b, res) is False:
+                        continue
+                    v = decide.ev3(n[2], {}, res)
+                    got = None if v is None else (1 if v == 2 else 0)
+                ncase += 1
+                if got != want and bad is None:
+                    bad = (ch, idx, fl, got, want)
+        where = '%s:%s' % (f.file, sx.line(n))
+        inst = '%s:%s line %s codes an LBRR frame conditionally iff the same channel has LBRR data for the previous frame' % (prog.config, f.name, sx.line(n))
+        if bad:
+            rep.violated('R09.7', inst, where, 'channel %d, frame %d, LBRR flags mid=%s side=%s: this site decides %s, the other side of the codec decides %s - the range decoder desynchronises on the LBRR data' %
+                         (bad[0], bad[1], list(bad[2][0]), list(bad[2][1]), {1: 'conditional', 0: 'independent', None: 'unknown'}[bad[3]], 'conditional' if bad[4] else 'independent'), key='lbrr-cond:%s:%s' % (f.name, kind_))
+        else:
+            rep.holds('R09.7', inst, where, '%d (channel, frame, flags) cases' % ncase, n=ncase)
+
+
 def r09_6(rep, prog):
     """LBRR gains are dequantised by the encoder the way the LBRR frame is emitted:
     silk_Encode writes LBRR frame i with conditional coding iff i > 0 and frame i-1 has LBRR data;
@@ -542,6 +624,7 @@ def r09_6(rep, prog):
 
 def check(rep, prog, tier):
     r09_6(rep, prog)
+    r09_7(rep, prog)
     r09_1(rep, prog)
     r09_2(rep, prog)
     r09_3(rep, prog)
